@@ -13,6 +13,11 @@ def uninterpreted(f):
     return f
 
 
+def opaque(f):
+    """the engine treats the function as an uninterpreted symbol unless a contract lists it under `reveal`"""
+    return f
+
+
 def implies(a, b):
     return (not a) or b
 
@@ -136,11 +141,13 @@ def ceil_(x):
     return math.ceil(x)
 
 
+@opaque
 def bloom_m(n, p32):
     """number of bits the library derives: ceil(-n ln(p) / ln(2)^2) with the code's constant"""
     return ceil_((-n * ln(p32)) / 0.4804530139182)
 
 
+@opaque
 def bloom_k(n, m):
     """number of hashes: round(ln 2 * m / n) with the code's constant"""
     return int(round(0.6931471805599453 * m / n))
@@ -305,3 +312,51 @@ def allkeys(*maps):
     for m in maps:
         out |= set(m)
     return out
+
+
+# ---- expanding / rotating Bloom filters ---------------------------------------------------------------------
+def eb_est(s):
+    return s._ExpandingBloomFilter__est_elements
+
+
+def eb_fpr(s):
+    return s._ExpandingBloomFilter__fpr
+
+
+def eb_hf(s):
+    return s._ExpandingBloomFilter__hash_func
+
+
+def sub_ok(s, b):
+    """sub-filter b of the expanding filter s: an in-memory Bloom filter of s's geometry, within capacity"""
+    return (inv_bloom_mem(b) and b._est_elements == eb_est(s) and b._fpr == f32(eb_fpr(s))
+            and b._num_bits == bloom_m(eb_est(s), f32(eb_fpr(s))) and b._number_hashes == bloom_k(eb_est(s), b._num_bits)
+            and b._hash_func == eb_hf(s) and 0 <= b._els_added)
+
+
+def inv_exp(s):
+    """expanding filter: at least one sub-filter, all of the same geometry, none over capacity"""
+    return (len(s._blooms) >= 1 and eb_est(s) >= 1 and 0 < f32(eb_fpr(s)) < 1
+            and bloom_k(eb_est(s), bloom_m(eb_est(s), f32(eb_fpr(s)))) >= 1
+            and bloom_m(eb_est(s), f32(eb_fpr(s))) < 2**53
+            and all(sub_ok(s, s._blooms[q]) and s._blooms[q]._els_added <= eb_est(s) for q in range(0, len(s._blooms))))
+
+
+def sub_reports(b, hashes):
+    """sub-filter b has every position of the hash list set
+    (the always-true first conjunct anchors quantifier instantiation on the sub-filter)"""
+    return len(b._bloom) >= 0 and all(bit(b._bloom, hashes[j] % b._num_bits) for j in range(0, b._number_hashes))
+
+
+def exp_reports(s, hashes):
+    """some sub-filter reports the hash list"""
+    return any(sub_reports(s._blooms[q], hashes) for q in range(0, len(s._blooms)))
+
+
+def added_to(b, b0, hashes):
+    """b is b0 after one add_alt(hashes): positions or-ed in, nothing else changed, counter + 1"""
+    return (all(bit(b._bloom, k) == (bit(b0._bloom, k) or (k < b0._num_bits and hit(hashes, b0._number_hashes, b0._num_bits, k)))
+                for k in range(0, 8 * b0._bloom_length))
+            and b._els_added == b0._els_added + 1 and len(b._bloom) == len(b0._bloom)
+            and b._num_bits == b0._num_bits and b._number_hashes == b0._number_hashes and b._bloom_length == b0._bloom_length
+            and b._est_elements == b0._est_elements and b._fpr == b0._fpr and b._hash_func == b0._hash_func)
